@@ -228,6 +228,7 @@ class LoopMixin:
     def check_inv(self, st, loop: Loop, key: str, phase: str):
         self.precoerce(st, loop)
         L = self.local_ctx(st)
+        object.__setattr__(L, 'proving', True)
         for name, term in loop.inv(L):
             self.check(st, term, f"{phase}[{key}]::{name}", phase)
 
